@@ -41,3 +41,44 @@ func ZzC12MediaURLAny() {
 	zzCover("resolved", ur != nil)
 	zzCover("rejected", err2 != nil)
 }
+
+// C20 (client-side control resolution against its documented rule): for a
+// relative control attribute made of symbolic URL-safe bytes plus '/' and '?'
+// anywhere (camera-style "stream=0/trackID=1", query-style "?ctl", leading
+// '/'), and a base with or without trailing slash / query, the resolved URL is
+// base + control, with a '/' inserted exactly when the control does not start
+// with '?' or '/' and the base does not end in '/'.
+func ZzC20MediaURLJoin() {
+	bases := []string{"rtsp://host:8554/stream/", "rtsp://host:8554/stream", "rtsp://host/s?k=v", "rtsp://host/s?k=v/"}
+	bs := bases[zzConcretize(zzIntIn("base", 0, 3))]
+	cb, err := base.ParseURL(bs)
+	zzAssert(err == nil, "content base parses")
+	n := zzParam("CL", 3)
+	ctl := zzString("control", 1, n)
+	ok := true
+	for i := 0; i < n; i++ {
+		c := zzSAt(ctl, i)
+		alnum := zzOr(zzAnd(c >= '0', c <= '9'), zzOr(zzAnd(c >= 'a', c <= 'z'), zzAnd(c >= 'A', c <= 'Z')))
+		punct := zzOr(zzOr(c == '=', c == '&'), zzOr(c == '/', c == '?'))
+		ok = zzAnd(ok, zzImplies(i < len(ctl), zzOr(alnum, punct)))
+	}
+	zzAssume(ok)
+	m := Media{Control: ctl}
+	ur, err2 := m.URL(cb)
+	zzAssert(err2 == nil && ur != nil, "a relative control made of URL-safe text resolves")
+	if err2 != nil || ur == nil {
+		return
+	}
+	want := bs
+	if ctl[0] != '?' && ctl[0] != '/' && bs[len(bs)-1] != '/' {
+		want += "/"
+	}
+	want += ctl
+	ref, err3 := base.ParseURL(want)
+	zzAssert(err3 == nil, "reference URL parses")
+	if err3 == nil {
+		zzAssert(ur.Path == ref.Path && ur.RawQuery == ref.RawQuery && ur.Host == ref.Host && ur.Scheme == ref.Scheme, "resolved media URL = base joined with the control attribute by the documented rule")
+	}
+	zzCover("separator inserted", ctl[0] != '?' && ctl[0] != '/' && bs[len(bs)-1] != '/')
+	zzCover("no separator", !(ctl[0] != '?' && ctl[0] != '/' && bs[len(bs)-1] != '/'))
+}
